@@ -285,16 +285,26 @@ func VerifCache() {
 	}
 	ref := map[string]*entry{"/a": {}, "/b": {}}
 	var clock int64
-	names := []string{"r0", "r1", "r2"}
+	names := []string{"r0", "r1", "r2", "r3", "r4"}
 	for k := 0; k < nondet.Param("R"); k++ {
 		n := names[k]
+		slim := nondet.Param("SLIM") == 1 // longer histories over a reduced alphabet
 		if k > 0 {
-			clock += []int64{0, 30, 90, 200}[nondet.Choice(n+"_wait", 4)]
+			if slim {
+				clock += []int64{0, 90}[nondet.Choice(n+"_wait", 2)]
+			} else {
+				clock += []int64{0, 30, 90, 200}[nondet.Choice(n+"_wait", 4)]
+			}
 		}
 		smClock = clock
 		u := urls[nondet.Choice(n+"_url", 2)]
-		pass := nondet.Bool(n + "_pass")
-		smRespKind = nondet.Choice(n+"_resp", 4)
+		pass := false
+		if slim {
+			smRespKind = []int{0, 2}[nondet.Choice(n+"_resp", 2)]
+		} else {
+			pass = nondet.Bool(n + "_pass")
+			smRespKind = nondet.Choice(n+"_resp", 4)
+		}
 		// what ProcessInit does per request
 		i.ctx = context.New()
 		i.process = process.New()
